@@ -20,7 +20,9 @@ import (
 	"github.com/segmentio/kafka-go/protocol"
 
 	"verif/engine/qx"
+	"verif/engine/refschema"
 	"verif/engine/seqx"
+	"verif/harness/clientops"
 )
 
 // memConn is the network connection the protocol.Conn reads from: it delivers the stream, then EOF.
@@ -61,6 +63,17 @@ type result struct {
 // decodeOnce is the operation under test: the Transport's read path (protocol.Conn + ReadResponse), then
 // everything a caller does with the message (walk the record sets).
 func decodeOnce(c *Case) (res result) {
+	if c.client != nil {
+		sch, err := refschema.Load(goldenPath())
+		if err != nil {
+			return result{key: "harness", sig: "harness-error", msg: err.Error()}
+		}
+		r := runClient(sch, clientops.Ops(), *c.client)
+		if r.frames == 0 && r.sig == "" {
+			return result{key: "not-injected"}
+		}
+		return result{key: r.key, sig: r.sig, msg: r.msg}
+	}
 	var ms0, ms1 runtime.MemStats
 	runtime.ReadMemStats(&ms0)
 	defer func() {
@@ -170,6 +183,7 @@ func TestChild(t *testing.T) {
 	if err := syscall.Setrlimit(syscall.RLIMIT_AS, &lim); err != nil {
 		t.Fatal(err)
 	}
+	curT = t
 	from, _ := strconv.Atoi(os.Getenv("C20_FROM"))
 	to, _ := strconv.Atoi(os.Getenv("C20_TO"))
 	shard, nshards := qx.EnvInt("VERIF_SHARD", 0), qx.EnvInt("VERIF_NSHARDS", 1)
@@ -342,6 +356,7 @@ func TestCheck(t *testing.T) {
 		t.Skip()
 	}
 	s := seqx.New(t)
+	curT = t
 	Pairs = os.Getenv("VERIF_TIER") == "thorough"
 	cases, err := Cases()
 	if err != nil {
@@ -366,6 +381,9 @@ func TestCheck(t *testing.T) {
 				maxAlloc = res.alloc
 			}
 			key := fmt.Sprintf("api%d:%s:%s:%s", c.Key, c.Kind, c.Class, res.key)
+			if c.client != nil {
+				key = "client:" + res.key
+			}
 			if res.sig != "" {
 				return key, &seqx.Viol{Sig: res.sig, Msg: c.ID + ": " + res.msg}
 			}
